@@ -757,6 +757,12 @@ class BaseBackend(CodeGen):
         state_rec = np.empty((store_steps, y.shape[0]) if y.shape else (store_steps, 1), dtype=y.dtype)
         has_dde = len(args) > 0 and isinstance(args[0], DDEHistory)
 
+        # ring buffers of delayed edges (arguments named `<var>_buffer...`, a reserved name) are advanced inside the
+        # generated function: they have to advance once per step, not once per evaluation
+        arg_names = getattr(getattr(func, '__code__', None), 'co_varnames', ())[2:2 + len(args)]
+        buffers = [arg for name, arg in zip(arg_names, args)
+                   if '_buffer' in name and '_buffered' not in name and hasattr(arg, 'shape')]
+
         # solve ivp via Heun's method.  See `_solve_euler` for the rationale
         # behind the iteration-counter-based storage condition.
         for i in range(steps):
@@ -767,8 +773,11 @@ class BaseBackend(CodeGen):
             # the generated function returns its `dy` buffer: copy the predictor slope before the corrector call
             # overwrites it
             rhs = np.array(func(step, y, *args))
+            buffer_states = [np.array(b) for b in buffers]
             y_0 = y + dt * rhs
             y += dt/2 * (rhs + func(step, y_0, *args))
+            for b, b_state in zip(buffers, buffer_states):
+                b[:] = b_state
             if has_dde:
                 args[0].update((i + 1) * dt, y)
 
